@@ -970,7 +970,7 @@ class SV:
     def ceil(s): return s.__ceil__()
     def rint(s): return (s + 0.5).floor()   # ties differ from numpy's half-even; harnesses avoid ties
     def __round__(s, n=None):
-        if n: raise Abort('round(ndigits)')
+        if n: return (s * (10 ** int(n))).rint() / (10 ** int(n))
         return s.rint()
     def __trunc__(s): raise Abort('trunc of symbolic')
     # comparisons
@@ -1298,6 +1298,7 @@ class SA(_np.ndarray):
         return _wrap(r)
     def max(self, *a, **k): return amax(self, *a, **k)
     def min(self, *a, **k): return amin(self, *a, **k)
+    def round(self, decimals=0, out=None): return npshim.round(self, decimals)
     def all(self, axis=None, **k): return aall(self, axis)
     def any(self, axis=None, **k): return aany(self, axis)
     def astype(self, dtype, *a, **k):
@@ -1899,8 +1900,10 @@ class NPShim(types.ModuleType):
     def ceil(self, x): return self._el(x, 'ceil', _np.ceil)
     def rint(self, x): return self._el(x, 'rint', _np.rint)
     def round(self, x, *a, **k):
-        if isinstance(x, SV): return x.rint()
-        if _is_symarr(x): return _wrap(_np.frompyfunc(lambda v: v.rint() if isinstance(v, SV) else float(round(v)), 1, 1)(_np.asarray(x, dtype=object)))
+        d = int(a[0]) if a else int(k.get('decimals', 0))
+        if isinstance(x, SV): return x.__round__(d)
+        if _is_symarr(x): return _wrap(_np.frompyfunc(lambda v: v.__round__(d) if isinstance(v, SV) else float(_np.round(float(v), d)), 1, 1)(_np.asarray(x, dtype=object)))
+        if isinstance(x, _np.ndarray) and x.dtype == object: x = _tofloat(x.view(_np.ndarray))
         return _np.round(x, *a, **k)
     around = round
     def isfinite(self, x):
@@ -1913,7 +1916,31 @@ class NPShim(types.ModuleType):
         return _np.issubdtype(a, b)
     def unique(self, a, *args, **k):
         if _is_symarr(a):
-            a = _np.array([int(v) for v in _np.asarray(a, dtype=object).flat]).reshape(_np.shape(a))
+            flat = list(_np.asarray(a, dtype=object).flat)
+            if all((not isinstance(v, SV)) or v.is_int for v in flat):
+                a = _np.array([int(v) for v in flat]).reshape(_np.shape(a))
+                return _np.unique(a, *args, **k)
+            # symbolic reals: order and equality are decided element by element (forks), stable so that the
+            # reported index is the first occurrence as in numpy
+            names = ('return_index', 'return_inverse', 'return_counts', 'axis')
+            opt = dict(zip(names, args)); opt.update(k)
+            if opt.get('return_inverse') or opt.get('return_counts') or opt.get('axis') is not None:
+                raise Abort('unique(return_inverse/return_counts/axis) of symbolic reals')
+            import functools
+            def cmp(i, j):
+                if bool(flat[i] < flat[j]): return -1
+                if bool(flat[j] < flat[i]): return 1
+                return 0
+            idx = sorted(range(len(flat)), key=functools.cmp_to_key(cmp))
+            keep = []
+            for i in idx:
+                if keep and cmp(keep[-1], i) == 0: continue
+                keep.append(i)
+            vals = _np.empty(len(keep), dtype=object)
+            for n_, i in enumerate(keep): vals[n_] = flat[i]
+            vals = vals.view(SA)
+            if opt.get('return_index'): return vals, _np.array(keep, dtype=int)
+            return vals
         return _np.unique(a, *args, **k)
     def radians(self, x): return x * (math.pi / 180.0) if _is_symarr(x) else _np.radians(x)
     def degrees(self, x): return x * (180.0 / math.pi) if _is_symarr(x) else _np.degrees(x)
